@@ -12,7 +12,8 @@ import re
 from ..core import rule, AnalysisError
 from ..engine import rx
 from ..engine.facts import dotted, const, src, walk_func, str_value
-from .common import calls
+from ..engine import pattern as P
+from .common import calls, pn
 
 MARKUP = set("&<>\"'")
 
@@ -111,8 +112,9 @@ def entity_escaper(ctx):
     ctx.check(bool(r) and "__escapable.sub(self.__escape, str(text))" in src(r[0].value).replace("_XMLEntityEscaper", ""), "escape.applies", db.where(fn), "escape() is %s" % (src(r[0].value) if r else None), "substitutes over str(text)")
     ef = [f for n, f in db.methods("filters.XMLEntityEscaper").items() if n.endswith("__escape")]
     ctx.require(ef, "__escape not found")
-    t = src(ef[0])
-    ctx.check("self.codepoint2entity[codepoint]" in t and "'&#x%X;' % codepoint" in t and "ord(m.group())" in t, "escape.numeric-fallback", db.where(ef[0]), "__escape does not fall back to a numeric character reference for code points without a named entity", "named entity else &#x..;")
+    e0 = ef[0]
+    ok = P.has(e0, "$c = ord(%s.group())\ntry:\n    return self.codepoint2entity[$c]\nexcept $x:\n    return '&#x%%X;' %% $c" % pn(e0, 1)) or P.has(e0, "$c = ord(%s.group())\n...\nreturn self.codepoint2entity.get($c, '&#x%%X;' %% $c)" % pn(e0, 1))
+    ctx.check(ok, "escape.numeric-fallback", db.where(ef[0]), "__escape does not fall back to a numeric character reference for code points without a named entity", "named entity else &#x..;")
     # unescape: numeric decimal, hex and names of length >= 2
     pat = str_value(refs.value.args[0])
     fl = 0
@@ -129,8 +131,11 @@ def entity_escaper(ctx):
     ctx.check(ok_first and rx.find_group(sub, 1) is not None and rx.find_group(sub, 2) is not None, "unescape.shapes", db.where(refs), "unescape regex lacks one of decimal / hex / name alternatives: %s" % t, "decimal, hex and name references: %s" % t)
     un = [f for n, f in db.methods("filters.XMLEntityEscaper").items() if n.endswith("__unescape")]
     ctx.require(un, "__unescape not found")
-    t = src(un[0])
-    ctx.check("int(dval)" in t and "int(hval, 16)" in t and "self.name2codepoint.get(name" in t and "chr(codepoint)" in t, "unescape.decode", db.where(un[0]), "__unescape does not decode decimal/hex/named references to chr(codepoint)", "int(d) / int(h,16) / name2codepoint -> chr")
+    u0 = un[0]
+    ok = P.has(u0, "($d, $h, $n) = %s.groups()\nif $d:\n    $c = int($d)\nelif $h:\n    $c = int($h, 16)\nelse:\n    $c = self.name2codepoint.get($n, $dflt)\n..." % pn(u0, 1))
+    rets = [r_ for r_ in walk_func(u0) if isinstance(r_, ast.Return)]
+    ok = ok and bool(rets) and all(P.has(r_, "chr($c)") for r_ in rets)
+    ctx.check(ok, "unescape.decode", db.where(un[0]), "__unescape does not decode decimal/hex/named references to chr(codepoint)", "int(d) / int(h,16) / name2codepoint -> chr")
     ee = db.func("filters.XMLEntityEscaper.escape_entities")
     ctx.check("translate(self.codepoint2entity)" in src(ee), "entity.translate", db.where(ee), "escape_entities does not translate through codepoint2entity", "str(text).translate(codepoint2entity)")
     init = db.func("filters.XMLEntityEscaper.__init__")
